@@ -18,6 +18,9 @@ pub enum Placement {
     UnsolNullWait,
     /// while an unsolicited response with events awaits its confirm
     UnsolDataWait,
+    /// a READ of the event classes is deferred during an unsolicited confirm wait and answered (with events, so that
+    /// confirmation is requested) when the wait ends; the READ is repeated while THAT response awaits its confirm
+    DeferredRead,
 }
 
 #[derive(Clone, Debug, Serialize, Deserialize)]
@@ -28,6 +31,9 @@ pub enum Between {
     Advance(u8),
     LinkStatus,
     ForeignFragment,
+    /// a DIRECT_OPERATE_NR with other objects arrives by broadcast (executed, never answered): it uses the outstation's
+    /// buffers but is not what a retransmission of the request before it refers to
+    BroadcastControl,
 }
 
 #[derive(Clone, Debug, Serialize, Deserialize)]
@@ -135,7 +141,7 @@ impl Prop for Repeat {
         ]
     }
     fn strategy(_tier: Tier) -> BoxedStrategy<Case> {
-        let placement = prop_oneof![3 => Just(Placement::Idle), 3 => (1u8..5).prop_map(Placement::MidSeries), 1 => Just(Placement::UnsolNullWait), 2 => Just(Placement::UnsolDataWait)];
+        let placement = prop_oneof![3 => Just(Placement::Idle), 3 => (1u8..5).prop_map(Placement::MidSeries), 1 => Just(Placement::UnsolNullWait), 2 => Just(Placement::UnsolDataWait), 1 => Just(Placement::DeferredRead)];
         let between = prop_oneof![
             3 => Just(Between::Nothing),
             1 => any::<u8>().prop_map(Between::WrongConfirm),
@@ -143,6 +149,7 @@ impl Prop for Repeat {
             1 => (0u8..90).prop_map(Between::Advance),
             1 => Just(Between::LinkStatus),
             1 => Just(Between::ForeignFragment),
+            1 => Just(Between::BroadcastControl),
         ];
         (
             placement,
@@ -267,6 +274,12 @@ async fn do_between(
             rig.send_raw(&b);
             rig.settle().await;
         }
+        Between::BroadcastControl => {
+            let f = Fragment::request(9, func::DIRECT_OPERATE_NR, ra::h_prefixed8(41, 2, &[(0x21, vec![0x55, 0x66, 0])])).encode();
+            let b = rig.frame_fragment(MASTER_ADDR, 0xFFFD, &f);
+            rig.send_raw(&b);
+            rig.settle().await;
+        }
     }
 }
 
@@ -274,7 +287,7 @@ async fn run_case(case: &Case) -> CaseOut {
     let mut out = CaseOut::default();
     let unsolicited = matches!(
         case.placement,
-        Placement::UnsolNullWait | Placement::UnsolDataWait
+        Placement::UnsolNullWait | Placement::UnsolDataWait | Placement::DeferredRead
     );
     let mut cfg = OutConfig::default();
     cfg.sol_tx = case.sol_tx;
@@ -374,6 +387,50 @@ async fn run_case(case: &Case) -> CaseOut {
                 out.label("setup_failed");
             }
         }
+        Placement::DeferredRead => {
+            out.label("placement:deferred_read");
+            let mut useq: Option<u8> = None;
+            if let Some(n) = startup.iter().find(|b| b[1] == func::UNSOLICITED_RESPONSE) {
+                rig.send(&Fragment::confirm(n[0] & 0x0F, true));
+                obs.unsol_confirmed_since = true;
+                rig.settle().await;
+            }
+            rig.send(&enable_unsol((case.seq + 5) & 0x0F, true, &[1, 2, 3]));
+            rig.settle().await;
+            serial += 1;
+            let r = unique_rec(5, 0, serial, serial, 0);
+            rig.db(|db| update_point(db, &r, UpdateOptions::detect_event()));
+            rig.settle().await;
+            for b in obs.take(&mut rig, &mut out) {
+                if b[1] == func::UNSOLICITED_RESPONSE && b.len() > 4 {
+                    useq = Some(b[0] & 0x0F);
+                }
+            }
+            // another event, not part of the unsolicited response in flight
+            serial += 1;
+            let r = unique_rec(5, 1 % case.points.max(1) as u16, serial, serial, 0);
+            rig.db(|db| update_point(db, &r, UpdateOptions::detect_event()));
+            rig.settle().await;
+            // the READ under test: deferred
+            rig.send(&read_classes(case.seq, &[1, 2, 3]));
+            rig.settle().await;
+            let early = obs.take(&mut rig, &mut out);
+            match useq {
+                Some(u) if !early.iter().any(|b| b[1] == func::RESPONSE) => {
+                    rig.send(&Fragment::confirm(u, true));
+                    rig.settle().await;
+                    let f = obs.take(&mut rig, &mut out);
+                    // answered now, with events: confirmation requested
+                    if f.iter().any(|b| b[1] == func::RESPONSE && b[0] & 0x0F == case.seq && b[0] & 0x20 != 0) {
+                        series_seq = Some(case.seq);
+                        out.nontrivial = true;
+                    } else {
+                        out.label("setup_failed");
+                    }
+                }
+                _ => out.label("setup_failed"),
+            }
+        }
         Placement::MidSeries(k) => {
             // the READ itself is the request under test: send it, confirm k fragments
             let req = request(16, case.seq);
@@ -412,14 +469,18 @@ async fn run_case(case: &Case) -> CaseOut {
         return out;
     }
 
-    let req = request(case.request, case.seq);
+    let req = if case.placement == Placement::DeferredRead {
+        read_classes(case.seq, &[1, 2, 3])
+    } else {
+        request(case.request, case.seq)
+    };
     let req_bytes = req.encode();
     let is_read = req.func == func::READ;
     let _ = rig.shared.take_log();
 
     // --- first transmission (for MidSeries the READ has been sent already) ---
     let mut first_reply: Option<Vec<u8>> = None;
-    if !matches!(case.placement, Placement::MidSeries(_)) {
+    if !matches!(case.placement, Placement::MidSeries(_) | Placement::DeferredRead) {
         rig.send_fragment(&req_bytes);
         rig.settle().await;
         let f = obs.take(&mut rig, &mut out);
@@ -443,6 +504,10 @@ async fn run_case(case: &Case) -> CaseOut {
         }
         if let Some(b) = case.between.get(i as usize) {
             do_between(&mut rig, b, &mut serial, case.points, series_seq).await;
+            if matches!(b, Between::BroadcastControl) {
+                // a broadcast request ends a solicited series like any new request: a READ repeated after it is a new READ
+                series_seq = None;
+            }
             let _ = obs.take(&mut rig, &mut out);
             // a solicited series or unsolicited wait may have timed out meanwhile; that is fine, the rules below are conditional
         }
@@ -492,7 +557,7 @@ async fn run_case(case: &Case) -> CaseOut {
             {
                 out.fail(Fail::new("repeat-not-answered", format!("repeat #{} of request func {} in idle got no reply although the first transmission was answered", i + 1, req.func)));
             }
-        } else if let (Placement::MidSeries(_), Some(_)) = (&case.placement, series_seq) {
+        } else if let (Placement::MidSeries(_) | Placement::DeferredRead, Some(_)) = (&case.placement, series_seq) {
             // (3) a READ repeated while its own series awaits a confirm: whatever is sent must be a fragment sent before
             for r in &replies {
                 out.label("echo_seen");
